@@ -294,6 +294,16 @@ func (g *G) shareTemplate(p *grl.Program, facts *grl.Facts) bool {
 // tieTemplate (C03): several rules true at once with equal and extreme saliences.
 func (g *G) tieTemplate(p *grl.Program, facts *grl.Facts) bool {
 	m := &grl.Model{S: grl.NewState(facts)}
+	if g.R.Chance(1, 4) {
+		// one or two satisfied rules that all carry the same extreme salience (alone in their cycle)
+		s := g.R.PickInt64(-2147483648, -2147483648, 2147483647, -1)
+		for i := 0; i < g.R.Range(1, 2); i++ {
+			name := fmt.Sprintf("X%d", i)
+			p.Rules = append(p.Rules, &grl.Rule{Name: name, Salience: sal(s), When: g.condWith(m, true, 1),
+				Then: []*grl.Action{g.assign(g.destPath()), {K: "retract", Name: name}}})
+		}
+		return true
+	}
 	k := g.R.Range(3, 5)
 	sals := []int64{g.R.PickInt64(-2147483648, -7, 0, 5, 2147483647)}
 	sals = append(sals, sals[0], g.R.PickInt64(-2147483648, -7, -1, 0, 1, 2147483647))
@@ -359,10 +369,16 @@ func (g *G) naturalAction() *grl.Action {
 func (g *G) applyTemplate(property string, p *grl.Program, facts *grl.Facts) string {
 	switch property {
 	case "C01":
+		if g.R.Chance(1, 4) && g.selectorTemplate(p, facts) {
+			return "selector"
+		}
 		if g.flipTemplate(p, facts, g.R.Chance(3, 4)) {
 			return "flip"
 		}
 	case "C02":
+		if g.R.Chance(1, 4) && g.selectorTemplate(p, facts) {
+			return "selector"
+		}
 		if g.flipTemplate(p, facts, g.R.Chance(1, 4)) {
 			return "flip"
 		}
@@ -450,4 +466,66 @@ func (g *G) convTemplate(p *grl.Program) {
 		&grl.Action{K: "assign", Path: grl.P("J.n"), Op: g.R.PickStr("=", "+=", "*="), E: grl.PathE(grl.P(o + ".U8"))},
 		&grl.Action{K: "retract", Name: "Cv"})
 	p.Rules = append(p.Rules, r)
+}
+
+
+// selectorTemplate: a condition reads a slice through a COMPUTED selector whose index expression
+// text also occurs elsewhere in the rule set (second selector on another slice, or a plain operand),
+// and another rule assigns the variable inside the index expression. The shared index expression is
+// one node in the library and must stay one (known to the working memory) node in every instance.
+func (g *G) selectorTemplate(p *grl.Program, facts *grl.Facts) bool {
+	m := &grl.Model{S: grl.NewState(facts)}
+	f := g.R.PickStr("F", "G")
+	ivar := g.R.PickStr(f+".I8", f+".P.X", "N")
+	v, err := m.Eval(grl.PathE(grl.P(ivar)))
+	if err != nil {
+		return false
+	}
+	cur := grlInt(v)
+	// index expression  (ivar - cur)  evaluates to 0 now and to 1 after the writer ran
+	idx := func() *grl.Expr { return grl.Bin("-", grl.PathE(grl.P(ivar)), valueLit(cur)) }
+	a0, err0 := m.Eval(grl.PathE(grl.P(f + ".A").Idx(grl.LitInt(0))))
+	a1, err1 := m.Eval(grl.PathE(grl.P(f + ".A").Idx(grl.LitInt(1))))
+	if err0 != nil || err1 != nil {
+		return false
+	}
+	x0, x1 := grlInt(a0), grlInt(a1)
+	if x0 == x1 {
+		// make the two elements differ so that the index matters
+		p.Rules = append(p.Rules, &grl.Rule{Name: "Sz", Salience: sal(2147483647), When: grl.LitBool(true),
+			Then: []*grl.Action{{K: "assign", Path: grl.P(f + ".A").Idx(grl.LitInt(1)), Op: "=", E: valueLit(x0 + 7)}, {K: "retract", Name: "Sz"}}})
+		x1 = x0 + 7
+	}
+	aTrue := g.R.Chance(1, 2)
+	want := x0
+	if !aTrue {
+		want = x1
+	}
+	reader := grl.Bin("==", grl.PathE(grl.P(f+".A").Idx(idx())), valueLit(want))
+	// the same index expression text elsewhere
+	var other *grl.Expr
+	switch g.R.Intn(3) {
+	case 0:
+		other = grl.Bin("!=", grl.PathE(grl.P(f+".AS").Idx(idx())), grl.LitStr("never-this"))
+	case 1:
+		other = grl.Bin(">=", idx(), grl.LitInt(0))
+	default:
+		other = grl.Bin(">=", grl.PathE(grl.P(f+".AF").Idx(idx())), grl.LitFloat(0-1000.5))
+	}
+	ra := &grl.Rule{Name: "Sa", Salience: sal(g.R.PickInt64(-7, -1, 0)), When: grl.Bin("&&", other, reader),
+		Then: []*grl.Action{g.assign(g.destPath()), {K: "retract", Name: "Sa"}}}
+	if g.R.Chance(1, 2) {
+		ra.When = reader
+		p.Rules = append(p.Rules, &grl.Rule{Name: "So", Salience: sal(g.R.PickInt64(-1, 0, 1)), When: other,
+			Then: []*grl.Action{{K: "log", Text: "so"}, {K: "retract", Name: "So"}}})
+	}
+	rb := &grl.Rule{Name: "Sb", Salience: sal(g.R.PickInt64(1, 5)), When: g.condWith(m, true, 1),
+		Then: []*grl.Action{{K: "assign", Path: grl.P(ivar), Op: g.R.PickStr("=", "+="), E: nil}, {K: "retract", Name: "Sb"}}}
+	if rb.Then[0].Op == "=" {
+		rb.Then[0].E = valueLit(cur + 1)
+	} else {
+		rb.Then[0].E = grl.LitInt(1)
+	}
+	p.Rules = append(p.Rules, ra, rb)
+	return true
 }
